@@ -282,6 +282,15 @@ def main():
                 elif r["id"] in surv:
                     surv.discard(r["id"])
             ms = [dict(m, all_checks=True) for m in mutants() if m["id"] in surv]
+        if "--rerun-void" in args:
+            # verdicts produced by a defect of the harness itself (the known C16 parser panic was not
+            # recognised in a lane because its key carried the lane's checkout path) are run again
+            latest = {}
+            for l in open(f"{OUT}/results.jsonl"):
+                r = json.loads(l)
+                latest[r["id"]] = r
+            void = {i for i, r in latest.items() if r.get("by") == "C16" and "ParseI" in (r.get("key") or "")}
+            ms = [dict(m, all_checks=True) for m in mutants() if m["id"] in void]
         print(f"{len(ms)} mutants to run on {lanes} lanes", flush=True)
         for k in range(lanes):
             setup_lane(k)
